@@ -345,3 +345,703 @@ impl<'a> Gen<'a> {
         Schema { comment, doc, imports, defs }
     }
 }
+
+// ------------------------------------------------------------------ C17: name-directed generation
+//
+// The front end looks names up that come from the source text: the schema component and the item
+// path of doc links (`LinkResolver`), the schema and the identifier of external references
+// (`dep::Type` in type, key and array-length position), import names.  The functions below draw
+// such names from a `World`: the schemas a generated main schema can talk about, each in a known
+// *situation*, with the names they define (when they resolve).
+
+/// how a schema name behaves as the target of a doc link or of an external reference
+pub const SITUATIONS: [&str; 7] = ["missing", "unreadable", "syntax_error", "resolves", "not_imported", "self", "keyword"];
+/// markdown shapes that make comrak produce (or deliberately not produce) a `Link` node
+pub const LINK_FORMS: [&str; 16] = [
+    "inline", "inline_title", "inline_angle", "ref_full", "ref_collapsed", "ref_shortcut", "broken_shortcut",
+    "broken_code", "broken_full", "broken_full_code", "broken_collapsed", "autolink", "image", "nested", "block",
+    "multiline",
+];
+pub type Tally = std::collections::BTreeMap<String, u64>;
+
+fn bump(t: &mut Tally, k: String) {
+    *t.entry(k).or_insert(0) += 1;
+}
+
+/// the names a schema defines, as doc-link item paths and by kind
+#[derive(Clone, Default, Debug)]
+pub struct Names {
+    /// item paths that resolve (`Foo`, `Foo::a`, `Svc::f::args::x`, ...)
+    pub paths: Vec<String>,
+    /// paths one step off a definition: into a field/variant/const/newtype, a part that is not an
+    /// inline type, an invalid function/event part, an undefined member
+    pub near: Vec<String>,
+    /// struct, enum and newtype names with the index of their definition
+    pub types: Vec<(String, usize)>,
+    /// integer constants
+    pub consts: Vec<String>,
+    /// services and string/uuid constants (never right in type or array-length position)
+    pub others: Vec<String>,
+}
+
+pub fn names_of(a: &Schema) -> Names {
+    fn fields(n: &mut Names, base: &str, fs: &[Field], fb: &Option<Fallback>) {
+        for f in fs {
+            n.paths.push(format!("{base}::{}", f.name));
+            n.near.push(format!("{base}::{}::x", f.name));
+        }
+        if let Some(f) = fb {
+            n.paths.push(format!("{base}::{}", f.name));
+        }
+        n.near.push(format!("{base}::nope"));
+    }
+    fn vars(n: &mut Names, base: &str, vs: &[Variant], fb: &Option<Fallback>) {
+        for v in vs {
+            n.paths.push(format!("{base}::{}", v.name));
+            n.near.push(format!("{base}::{}::x", v.name));
+        }
+        if let Some(f) = fb {
+            n.paths.push(format!("{base}::{}", f.name));
+        }
+        n.near.push(format!("{base}::Nope"));
+    }
+    fn inl(n: &mut Names, base: &str, t: Option<&TyInl>) {
+        match t {
+            None | Some(TyInl::Ty(_)) => {
+                n.near.push(base.to_owned());
+                n.near.push(format!("{base}::x"));
+            }
+            Some(TyInl::Struct(s)) => {
+                n.paths.push(base.to_owned());
+                fields(n, base, &s.fields, &s.fallback);
+            }
+            Some(TyInl::Enum(s)) => {
+                n.paths.push(base.to_owned());
+                vars(n, base, &s.vars, &s.fallback);
+            }
+        }
+    }
+    let mut n = Names::default();
+    for (i, d) in a.defs.iter().enumerate() {
+        match d {
+            Def::Struct(s) => {
+                n.paths.push(s.name.clone());
+                n.types.push((s.name.clone(), i));
+                fields(&mut n, &s.name, &s.fields, &s.fallback);
+            }
+            Def::Enum(s) => {
+                n.paths.push(s.name.clone());
+                n.types.push((s.name.clone(), i));
+                vars(&mut n, &s.name, &s.vars, &s.fallback);
+            }
+            Def::Service(s) => {
+                n.paths.push(s.name.clone());
+                n.others.push(s.name.clone());
+                n.near.push(format!("{}::nope", s.name));
+                for it in &s.items {
+                    match it {
+                        Item::Fn(f) => {
+                            let b = format!("{}::{}", s.name, f.name);
+                            n.paths.push(b.clone());
+                            n.near.push(format!("{b}::bogus"));
+                            inl(&mut n, &format!("{b}::args"), f.args.as_ref().map(|p| &p.ty));
+                            inl(&mut n, &format!("{b}::ok"), f.ok.as_ref().map(|p| &p.ty));
+                            inl(&mut n, &format!("{b}::err"), f.err.as_ref().map(|p| &p.ty));
+                        }
+                        Item::Ev(e) => {
+                            let b = format!("{}::{}", s.name, e.name);
+                            n.paths.push(b.clone());
+                            n.near.push(format!("{b}::ok"));
+                            inl(&mut n, &format!("{b}::args"), e.ty.as_ref());
+                        }
+                    }
+                }
+                for f in [&s.fn_fb, &s.ev_fb].into_iter().flatten() {
+                    n.paths.push(format!("{}::{}", s.name, f.name));
+                    n.near.push(format!("{}::{}::args", s.name, f.name));
+                }
+            }
+            Def::Const(c) => {
+                n.paths.push(c.name.clone());
+                n.near.push(format!("{}::x", c.name));
+                if c.ty == "string" || c.ty == "uuid" {
+                    n.others.push(c.name.clone());
+                } else {
+                    n.consts.push(c.name.clone());
+                }
+            }
+            Def::Newtype(t) => {
+                n.paths.push(t.name.clone());
+                n.near.push(format!("{}::x", t.name));
+                n.types.push((t.name.clone(), i));
+            }
+        }
+    }
+    n
+}
+
+#[derive(Clone, Debug)]
+pub struct Target {
+    pub name: String,
+    /// one of SITUATIONS
+    pub situation: &'static str,
+    pub names: Names,
+}
+
+#[derive(Clone, Debug, Default)]
+pub struct World {
+    pub targets: Vec<Target>,
+}
+
+impl World {
+    /// a situation that occurs in this world, uniformly; then one of its targets
+    pub fn pick<'w>(&'w self, rng: &mut Rng) -> &'w Target {
+        let present: Vec<&'static str> = SITUATIONS.iter().copied().filter(|s| self.targets.iter().any(|t| t.situation == *s)).collect();
+        let s = *rng.pick(&present);
+        let ts: Vec<&Target> = self.targets.iter().filter(|t| t.situation == s).collect();
+        *rng.pick(&ts)
+    }
+    pub fn own(&self) -> &Target {
+        self.targets.iter().find(|t| t.situation == "self").expect("a world has its own schema")
+    }
+}
+
+const GENERIC_ITEMS: [&str; 16] = [
+    "Foo", "Foo::a", "Bar::A", "Svc", "Svc::f", "Svc::f::args", "Svc::f::args::x", "Config", "Backend::configure", "N",
+    "Id", "nope", "Foo::a::b", "struct", "self", "Config::host::x",
+];
+
+fn mangle(rng: &mut Rng, p: &str) -> String {
+    match rng.below(5) {
+        0 => format!("{p}x"),
+        1 => format!("{p}::zz"),
+        2 => {
+            let mut s = p.to_owned();
+            s.pop();
+            if s.is_empty() || s.ends_with(':') {
+                format!("{p}_")
+            } else {
+                s
+            }
+        }
+        3 => match p.rsplit_once("::") {
+            Some((a, b)) => format!("{b}::{a}"),
+            None => format!("{p}::{p}"),
+        },
+        _ => {
+            // flip the case of the first letter of the last component
+            let (head, last) = match p.rsplit_once("::") {
+                Some((a, b)) => (format!("{a}::"), b),
+                None => (String::new(), p),
+            };
+            let mut cs = last.chars();
+            match cs.next() {
+                Some(c) if c.is_ascii_lowercase() => format!("{head}{}{}", c.to_ascii_uppercase(), cs.as_str()),
+                Some(c) if c.is_ascii_uppercase() => format!("{head}{}{}", c.to_ascii_lowercase(), cs.as_str()),
+                _ => format!("{head}{last}9"),
+            }
+        }
+    }
+}
+
+/// a doc-link target path into `t`; tallies `<path form>|<item class>`
+pub fn link_url(rng: &mut Rng, t: &Target, tally: &mut Tally) -> String {
+    let n = &t.names;
+    let r = rng.below(100);
+    let (item, cls) = if r < 8 {
+        (String::new(), "schema_only")
+    } else if !n.paths.is_empty() && r < 58 {
+        (rng.pick(&n.paths).clone(), "defined")
+    } else if !n.near.is_empty() && r < 72 {
+        (rng.pick(&n.near).clone(), "near_miss")
+    } else if !n.paths.is_empty() && r < 84 {
+        let p = rng.pick(&n.paths).clone();
+        (mangle(rng, &p), "mangled")
+    } else {
+        (rng.pick(&GENERIC_ITEMS).to_string(), "generic")
+    };
+    let s = t.name.as_str();
+    let join = |pre: &str, item: &str| -> String {
+        if item.is_empty() {
+            pre.trim_end_matches("::").to_owned()
+        } else {
+            format!("{pre}{item}")
+        }
+    };
+    let r = rng.below(100);
+    let (url, form) = if t.situation == "self" {
+        if r < 25 {
+            (join("self::", &item), "self_kw")
+        } else if r < 40 {
+            (join("::self::", &item), "scoped_self_kw")
+        } else if r < 70 {
+            (if item.is_empty() { "self".to_owned() } else { item.clone() }, "bare")
+        } else if r < 85 {
+            (join(&format!("::{s}::"), &item), "scoped_own_name")
+        } else if r < 90 {
+            (join(&format!("{s}::"), &item), "own_name_unscoped")
+        } else {
+            (format!("::{}::{}", rng.pick(&["", "self:", ":self", "self::self"]), item), "malformed")
+        }
+    } else if r < 65 {
+        (join(&format!("::{s}::"), &item), "scoped")
+    } else if r < 75 {
+        (join(&format!("{s}::"), &item), "unscoped")
+    } else if r < 80 {
+        (format!("::{s}::{item}::"), "malformed")
+    } else if r < 84 {
+        (format!(":::{s}::{item}"), "malformed")
+    } else if r < 87 {
+        (format!("::{s}:{item}"), "malformed")
+    } else if r < 90 {
+        (format!("::{s}::::{item}"), "malformed")
+    } else if r < 95 {
+        (join(&format!("::{s}::self::"), &item), "scoped_then_self")
+    } else {
+        (join(&format!("::self::{s}::"), &item), "self_then_schema")
+    };
+    bump(tally, format!("{form}|{cls}"));
+    url
+}
+
+const LINK_TEXT: [&str; 10] = ["text", "x", "é", "`code`", "**b**", "a b", "Foo", "中 文", "t\\]t", "1"];
+const LINK_LABEL: [&str; 7] = ["lbl", "L1", "é", "Foo", "a b", "REF", "ü1"];
+const LINK_PRE: [&str; 14] = ["", "", "", "", "See ", "é", "中", "\t", "a\r", "\u{a0}", "*", "~~", "\\", "(see "];
+const LINK_POST: [&str; 10] = ["", "", "", ".", " é", "中", "\r", "*", "~~", ")"];
+
+/// the doc lines (one `///` line each) of one link of shape `form` to `url`
+pub fn link_lines(rng: &mut Rng, form: &str, url: &str, url2: &str) -> Vec<String> {
+    let text = *rng.pick(&LINK_TEXT);
+    let lbl = *rng.pick(&LINK_LABEL);
+    let pre = *rng.pick(&LINK_PRE);
+    let post = *rng.pick(&LINK_POST);
+    let one = |s: String| vec![format!("{pre}{s}{post}")];
+    match form {
+        "inline" => one(format!("[{text}]({url})")),
+        "inline_title" => one(format!("[{text}]({url} {})", rng.pick(&["\"title\"", "'t'", "(t)", "\"é\""]))),
+        "inline_angle" => one(format!("[{text}](<{url}>)")),
+        "ref_full" => vec![format!("{pre}[{text}][{lbl}]{post}"), String::new(), format!("[{lbl}]: {url}")],
+        "ref_collapsed" => vec![format!("{pre}[{lbl}][]{post}"), String::new(), format!("[{lbl}]: <{url}>")],
+        "ref_shortcut" => {
+            let def = match rng.below(3) {
+                0 => format!("[{lbl}]: {url}"),
+                1 => format!("[{lbl}]: {url} \"title\""),
+                _ => format!("  [{lbl}]:   {url}"),
+            };
+            if rng.chance(1, 2) {
+                vec![format!("{pre}[{lbl}]{post}"), String::new(), def]
+            } else {
+                vec![def, String::new(), format!("{pre}[{lbl}]{post}")]
+            }
+        }
+        "broken_shortcut" => one(format!("[{url}]")),
+        "broken_code" => one(if rng.chance(1, 12) {
+            // `convert_broken_link` slices the label between its back-ticks
+            format!("[{}]", rng.pick(&["`", "``", "` `", "`é`", "`::`", "`x`", "`self`", "`\u{a0}`", "`a``"]))
+        } else {
+            format!("[`{url}`]")
+        }),
+        "broken_full" => one(format!("[{text}][{url}]")),
+        "broken_full_code" => one(format!("[{text}][`{url}`]")),
+        "broken_collapsed" => one(if rng.chance(1, 2) { format!("[{url}][]") } else { format!("[`{url}`][]") }),
+        "autolink" => one(match rng.below(3) {
+            0 => format!("<{url}>"),
+            1 => format!("<{}>", url.trim_start_matches(':')),
+            _ => format!("<{}>", url.trim_start_matches(':').replacen("::", ":", 1)),
+        }),
+        "image" => one(format!("![{text}]({url})")),
+        "nested" => one(match rng.below(3) {
+            0 => format!("[![{text}]({url2})]({url})"),
+            1 => format!("[[`{url2}`]]({url})"),
+            _ => format!("[{text} [`{url2}`]][`{url}`]"),
+        }),
+        "block" => match rng.below(8) {
+            0 => vec![format!("- [{text}]({url})"), format!("  [`{url2}`]")],
+            1 => vec![format!("> [`{url}`]"), format!("> [{text}]({url2})")],
+            2 => vec![format!("# [`{url}`]")],
+            3 => vec![format!("- [ ] [{url}]"), format!("- [x] [{text}]({url2})")],
+            4 => vec!["| a | b |".into(), "|---|---|".into(), format!("| [{text}]({url}) | [`{url2}`] |")],
+            5 => vec![format!("t[^1]"), String::new(), format!("[^1]: [`{url}`]")],
+            6 => vec![format!("1. [{text}][{lbl}]"), String::new(), format!("[{lbl}]: {url}")],
+            _ => vec![format!("    [{text}]({url})"), "```".into(), format!("[`{url}`]"), "```".into(), format!("`[x]({url2})`")],
+        },
+        _ => match rng.below(6) {
+            0 => vec![format!("{pre}[multi"), format!("line]({url}){post}")],
+            1 => vec![format!("{pre}[{text}]("), format!("{url}){post}")],
+            2 => vec![format!("{pre}[{text}]["), format!("`{url}`]{post}")],
+            3 => vec![format!("a\r[{text}]({url})\rb [`{url2}`]")],
+            4 => vec![format!("[te\rxt]({url})")],
+            _ => vec![format!("[`{url}`"), "]".into(), format!("[`{url2}`]")],
+        },
+    }
+}
+
+/// every doc list of the schema, mutable
+pub fn for_each_doc(a: &mut Schema, f: &mut dyn FnMut(&mut Vec<String>)) {
+    fn fields(fs: &mut [Field], fb: &mut Option<Fallback>, f: &mut dyn FnMut(&mut Vec<String>)) {
+        for x in fs {
+            f(&mut x.doc);
+        }
+        if let Some(x) = fb {
+            f(&mut x.doc);
+        }
+    }
+    fn vars(vs: &mut [Variant], fb: &mut Option<Fallback>, f: &mut dyn FnMut(&mut Vec<String>)) {
+        for x in vs {
+            f(&mut x.doc);
+        }
+        if let Some(x) = fb {
+            f(&mut x.doc);
+        }
+    }
+    fn inl(t: &mut TyInl, f: &mut dyn FnMut(&mut Vec<String>)) {
+        match t {
+            TyInl::Ty(_) => {}
+            TyInl::Struct(s) => {
+                f(&mut s.doc);
+                fields(&mut s.fields, &mut s.fallback, f);
+            }
+            TyInl::Enum(s) => {
+                f(&mut s.doc);
+                vars(&mut s.vars, &mut s.fallback, f);
+            }
+        }
+    }
+    for d in &mut a.defs {
+        match d {
+            Def::Struct(s) => {
+                f(&mut s.doc);
+                fields(&mut s.fields, &mut s.fallback, f);
+            }
+            Def::Enum(s) => {
+                f(&mut s.doc);
+                vars(&mut s.vars, &mut s.fallback, f);
+            }
+            Def::Service(s) => {
+                f(&mut s.doc);
+                for i in &mut s.items {
+                    match i {
+                        Item::Fn(x) => {
+                            f(&mut x.doc);
+                            for p in [&mut x.args, &mut x.ok, &mut x.err].into_iter().flatten() {
+                                inl(&mut p.ty, f);
+                            }
+                        }
+                        Item::Ev(x) => {
+                            f(&mut x.doc);
+                            if let Some(t) = &mut x.ty {
+                                inl(t, f);
+                            }
+                        }
+                    }
+                }
+                for x in [&mut s.fn_fb, &mut s.ev_fb].into_iter().flatten() {
+                    f(&mut x.doc);
+                }
+            }
+            Def::Const(s) => f(&mut s.doc),
+            Def::Newtype(s) => f(&mut s.doc),
+        }
+    }
+}
+
+/// doc comments with links into the world: `matrix` counts `<link form>|<situation>`, `paths`
+/// counts `<path form>|<item class>`
+pub fn inject_link_docs(rng: &mut Rng, a: &mut Schema, w: &World, matrix: &mut Tally, paths: &mut Tally) {
+    let mut mk = |rng: &mut Rng| -> Vec<String> {
+        let mut v: Vec<String> = Vec::new();
+        for _ in 0..1 + rng.below(3) {
+            let t = w.pick(rng);
+            let url = link_url(rng, t, paths);
+            let t2 = w.pick(rng);
+            let url2 = link_url(rng, t2, paths);
+            let form = *rng.pick(&LINK_FORMS);
+            bump(matrix, format!("{form}|{}", t.situation));
+            if !v.is_empty() && rng.chance(1, 2) {
+                v.push(String::new());
+            }
+            v.extend(link_lines(rng, form, &url, &url2));
+            if rng.chance(1, 5) {
+                v.push(rng.pick(&DOC_POOL).to_string());
+            }
+        }
+        v
+    };
+    // (schema comments exist only together with schema docs, see `schema()`: replacing or adding
+    // `//!` lines keeps the text valid)
+    if rng.chance(1, 2) {
+        a.doc = mk(rng);
+    }
+    let mut rng2 = rng.clone();
+    for_each_doc(a, &mut |d: &mut Vec<String>| {
+        if rng2.chance(2, 3) {
+            *d = mk(&mut rng2);
+        }
+    });
+    *rng = rng2;
+}
+
+/// every type of the schema, mutable, outermost first: `f(type, index of the definition, key position)`
+pub fn for_each_type(a: &mut Schema, f: &mut dyn FnMut(&mut Type, usize, bool)) {
+    fn ty(t: &mut Type, i: usize, key: bool, f: &mut dyn FnMut(&mut Type, usize, bool)) {
+        f(t, i, key);
+        match t {
+            Type::Prim(_) | Type::Ref(_) => {}
+            Type::Gen1(g, x) => {
+                let k = *g == "set";
+                ty(x, i, k, f)
+            }
+            Type::Map(k, v) => {
+                ty(k, i, true, f);
+                ty(v, i, false, f);
+            }
+            Type::Result(a, b) => {
+                ty(a, i, false, f);
+                ty(b, i, false, f);
+            }
+            Type::Array(x, _) => ty(x, i, false, f),
+        }
+    }
+    fn fields(fs: &mut [Field], i: usize, f: &mut dyn FnMut(&mut Type, usize, bool)) {
+        for x in fs {
+            ty(&mut x.ty, i, false, f);
+        }
+    }
+    fn vars(vs: &mut [Variant], i: usize, f: &mut dyn FnMut(&mut Type, usize, bool)) {
+        for x in vs {
+            if let Some(t) = &mut x.ty {
+                ty(t, i, false, f);
+            }
+        }
+    }
+    fn inl(t: &mut TyInl, i: usize, f: &mut dyn FnMut(&mut Type, usize, bool)) {
+        match t {
+            TyInl::Ty(t) => ty(t, i, false, f),
+            TyInl::Struct(s) => fields(&mut s.fields, i, f),
+            TyInl::Enum(s) => vars(&mut s.vars, i, f),
+        }
+    }
+    for (i, d) in a.defs.iter_mut().enumerate() {
+        match d {
+            Def::Struct(s) => fields(&mut s.fields, i, f),
+            Def::Enum(s) => vars(&mut s.vars, i, f),
+            Def::Service(s) => {
+                for it in &mut s.items {
+                    match it {
+                        Item::Fn(x) => {
+                            for p in [&mut x.args, &mut x.ok, &mut x.err].into_iter().flatten() {
+                                inl(&mut p.ty, usize::MAX, f);
+                            }
+                        }
+                        Item::Ev(x) => {
+                            if let Some(t) = &mut x.ty {
+                                inl(t, usize::MAX, f);
+                            }
+                        }
+                    }
+                }
+            }
+            Def::Const(_) => {}
+            Def::Newtype(n) => ty(&mut n.ty, i, false, f),
+        }
+    }
+}
+
+/// Point named references (type, key and array-length position) at names of the world: the
+/// schema part is a target in a known situation, the identifier is of the right kind, of a wrong
+/// kind, or undefined there.  `clean`: only references that resolve without a diagnostic, to own
+/// definitions made earlier (no recursion) or to resolving imports.
+/// Tallies `<position>|<situation>|<identifier class>`.
+pub fn retarget_refs(rng: &mut Rng, a: &mut Schema, w: &World, clean: bool, tally: &mut Tally) {
+    let mut rng2 = rng.clone();
+    let mut pick_ref = |rng: &mut Rng, type_pos: bool, def: usize| -> Option<NamedRef> {
+        let t = if clean {
+            let res: Vec<&Target> = w.targets.iter().filter(|t| t.situation == "resolves").collect();
+            if !res.is_empty() && rng.chance(1, 2) {
+                *rng.pick(&res)
+            } else {
+                w.own()
+            }
+        } else if rng.chance(1, 3) {
+            w.own()
+        } else {
+            w.pick(rng)
+        };
+        let own = t.situation == "self";
+        let n = &t.names;
+        let right: Vec<String> = if type_pos {
+            n.types.iter().filter(|(_, i)| !(clean && own) || *i < def).map(|(s, _)| s.clone()).collect()
+        } else {
+            n.consts.clone()
+        };
+        let wrong: Vec<String> = if type_pos {
+            n.consts.iter().chain(n.others.iter()).cloned().collect()
+        } else {
+            n.types.iter().map(|(s, _)| s.clone()).chain(n.others.iter().cloned()).collect()
+        };
+        let r = rng.below(100);
+        let (id, cls) = if !right.is_empty() && (clean || r < 55) {
+            (rng.pick(&right).clone(), "right_kind")
+        } else if clean {
+            return None;
+        } else if !wrong.is_empty() && r < 72 {
+            (rng.pick(&wrong).clone(), "wrong_kind")
+        } else if !right.is_empty() && r < 85 {
+            let p = rng.pick(&right).clone();
+            (format!("{p}x"), "undefined")
+        } else {
+            (rng.pick(&["Nope", "Foo", "Bar", "N", "Id", "Config", "x"]).to_string(), "undefined")
+        };
+        let r = if own && (clean || rng.chance(4, 5)) { NamedRef::Intern(id) } else { NamedRef::Extern(t.name.clone(), id) };
+        let first = match &r {
+            NamedRef::Intern(a) => a,
+            NamedRef::Extern(a, _) => a,
+        };
+        if type_pos && kw_prefixed(first) {
+            return None;
+        }
+        bump(tally, format!("{}|{}|{}", if type_pos { "type" } else { "array_len" }, t.situation, cls));
+        Some(r)
+    };
+    for_each_type(a, &mut |t: &mut Type, def: usize, key: bool| {
+        let rng = &mut rng2;
+        match t {
+            Type::Ref(_) => {
+                if clean || rng.chance(3, 5) {
+                    match pick_ref(rng, true, def) {
+                        Some(r) => *t = Type::Ref(r),
+                        None if clean => *t = Type::Prim(*rng.pick(&["u32", "string", "uuid"])),
+                        None => {}
+                    }
+                }
+            }
+            Type::Prim(_) if !clean && rng.chance(1, 8) => {
+                if let Some(r) = pick_ref(rng, true, def) {
+                    *t = Type::Ref(r);
+                }
+            }
+            Type::Array(_, len) => {
+                let redo = match len {
+                    ArrayLen::Ref(_) => clean || rng.chance(3, 5),
+                    ArrayLen::Lit(_) => rng.chance(1, 4),
+                };
+                if redo {
+                    match pick_ref(rng, false, def) {
+                        Some(r) => *len = ArrayLen::Ref(r),
+                        None if clean => *len = ArrayLen::Lit("3".into()),
+                        None => {}
+                    }
+                } else if clean {
+                    *len = ArrayLen::Lit("3".into());
+                }
+            }
+            _ => {}
+        }
+        if clean && key {
+            // keys must be key types
+            match t {
+                Type::Prim("u8" | "i8" | "u16" | "i16" | "u32" | "i32" | "u64" | "i64" | "string" | "uuid") => {}
+                _ => *t = Type::Prim(*rng.pick(&["u32", "string", "uuid", "i64"])),
+            }
+        }
+    });
+    *rng = rng2;
+}
+
+/// Rename and renumber so that the schema has no diagnostics of its own (names unique and in the
+/// recommended case, ids 1.., no empty enum, constants in range).  References are left to
+/// `retarget_refs(.., clean = true)`.
+pub fn make_clean(rng: &mut Rng, a: &mut Schema) {
+    fn fields(fs: &mut [Field], fb: &mut Option<Fallback>) {
+        for (j, f) in fs.iter_mut().enumerate() {
+            f.name = format!("f{j}");
+            f.id = format!("{}", j + 1);
+        }
+        if let Some(f) = fb {
+            f.name = "rest".into();
+        }
+    }
+    fn vars(vs: &mut Vec<Variant>, fb: &mut Option<Fallback>) {
+        if vs.is_empty() {
+            vs.push(Variant { comment: Vec::new(), doc: Vec::new(), name: String::new(), id: String::new(), ty: None });
+        }
+        for (j, v) in vs.iter_mut().enumerate() {
+            v.name = format!("V{j}");
+            v.id = format!("{}", j + 1);
+        }
+        if let Some(f) = fb {
+            f.name = "Rest".into();
+        }
+    }
+    fn inl(t: &mut TyInl) {
+        match t {
+            TyInl::Ty(_) => {}
+            TyInl::Struct(s) => {
+                s.attrs.clear();
+                fields(&mut s.fields, &mut s.fallback)
+            }
+            TyInl::Enum(s) => {
+                s.attrs.clear();
+                vars(&mut s.vars, &mut s.fallback)
+            }
+        }
+    }
+    a.imports.clear();
+    for (i, d) in a.defs.iter_mut().enumerate() {
+        match d {
+            Def::Struct(s) => {
+                s.name = format!("Ty{i}");
+                s.attrs.clear();
+                fields(&mut s.fields, &mut s.fallback);
+            }
+            Def::Enum(s) => {
+                s.name = format!("Ty{i}");
+                s.attrs.clear();
+                vars(&mut s.vars, &mut s.fallback);
+            }
+            Def::Service(s) => {
+                s.name = format!("Svc{i}");
+                s.ver = format!("{}", 1 + rng.below(3));
+                let (mut nf, mut ne) = (0, 0);
+                for it in &mut s.items {
+                    match it {
+                        Item::Fn(f) => {
+                            nf += 1;
+                            f.name = format!("m{nf}");
+                            f.id = format!("{nf}");
+                            for p in [&mut f.args, &mut f.ok, &mut f.err].into_iter().flatten() {
+                                inl(&mut p.ty);
+                            }
+                        }
+                        Item::Ev(e) => {
+                            ne += 1;
+                            e.name = format!("e{ne}");
+                            e.id = format!("{ne}");
+                            if let Some(t) = &mut e.ty {
+                                inl(t);
+                            }
+                        }
+                    }
+                }
+                if let Some(f) = &mut s.fn_fb {
+                    f.name = "other_fn".into();
+                }
+                if let Some(f) = &mut s.ev_fb {
+                    f.name = "other_ev".into();
+                }
+            }
+            Def::Const(c) => {
+                c.name = format!("CONST_{i}");
+                match c.ty {
+                    "string" => c.val = rng.pick(&["\"s\"", "\"\"", "\"a\\\\b\\\"c\"", "\"é\""]).to_string(),
+                    "uuid" => {}
+                    _ => c.val = format!("{}", 1 + rng.below(100)),
+                }
+            }
+            Def::Newtype(n) => {
+                n.name = format!("Ty{i}");
+                n.attrs.clear();
+            }
+        }
+    }
+}
